@@ -715,16 +715,30 @@ func (s *DB) getHistoricRootsAndNodes(
 	}
 	// Nodes are content-addressed, so a node that a child version dropped can be
 	// part of a later version again (for instance after a delete restored
-	// earlier content). Never offer a node that the version behind this handle
-	// still uses.
-	err = s.crdt.Mast.DiffLinks(ctx, nil, func(removed bool, link interface{}) (bool, error) {
-		if ls, ok := link.(string); ok && !removed {
-			delete(candidateBlocks, ls)
-		}
-		return true, nil
-	})
-	if err != nil {
+	// earlier content). Never offer a node that the version behind this handle,
+	// or a version that is being kept, still uses.
+	keepNodesOf := func(m *mast.Mast) error {
+		return m.DiffLinks(ctx, nil, func(removed bool, link interface{}) (bool, error) {
+			if ls, ok := link.(string); ok && !removed {
+				delete(candidateBlocks, ls)
+			}
+			return true, nil
+		})
+	}
+	if err = keepNodesOf(s.crdt.Mast); err != nil {
 		return nil, nil, fmt.Errorf("list nodes in use: %w", err)
+	}
+	for keptName, keptRoot := range rootCacheByName {
+		if _, deleting := candidateRoots[keptName]; deleting {
+			continue
+		}
+		kept, err := crdt.Load(ctx, s.crdt.Config, &keptName, *keptRoot)
+		if err != nil {
+			return nil, nil, fmt.Errorf("load kept version %s: %w", keptName, err)
+		}
+		if err = keepNodesOf(kept.Mast); err != nil {
+			return nil, nil, fmt.Errorf("list nodes of kept version %s: %w", keptName, err)
+		}
 	}
 	nodes = make([]string, 0, len(candidateBlocks))
 	for k := range candidateBlocks {
